@@ -622,7 +622,6 @@ func editsFor(base *docSpec) []edit {
 		bs := base.Stmts[si]
 		isSkip := bs.Level == "skip"
 		sl := func(f string) []string { return []string{fmt.Sprintf("s%d.%s", si, f)} }
-		P := func(cond bool) bool { return cond }
 
 		viol("name-empty", fmt.Sprintf("s%d", si), true, sl("name"), func(d *docSpec) { d.Stmts[si].Name = "" })
 		keep("rename", si == 0, sl("name"), func(d *docSpec) { d.Stmts[si].Name = fmt.Sprintf("renamed statement %d ", si) })
@@ -632,7 +631,7 @@ func editsFor(base *docSpec) []edit {
 		for _, l := range levelAlphabet {
 			if l.Bad != "" {
 				l := l
-				viol("level:"+l.Bad, fmt.Sprintf("s%d", si), P(first), sl("level"), func(d *docSpec) { d.Stmts[si].Level = l.V })
+				viol("level:"+l.Bad, fmt.Sprintf("s%d", si), first, sl("level"), func(d *docSpec) { d.Stmts[si].Level = l.V })
 				first = false
 			}
 		}
@@ -641,7 +640,7 @@ func editsFor(base *docSpec) []edit {
 		for _, v := range vtsAlphabet {
 			v := v
 			if v.Bad != "" {
-				viol("verifyTimestamp:"+v.Bad, fmt.Sprintf("s%d", si), P(first), sl("vts"), func(d *docSpec) { d.Stmts[si].VTS = v.V })
+				viol("verifyTimestamp:"+v.Bad, fmt.Sprintf("s%d", si), first, sl("vts"), func(d *docSpec) { d.Stmts[si].VTS = v.V })
 				first = false
 			} else if v.V != bs.VTS {
 				keep("verifyTimestamp-other-known", false, sl("vts"), func(d *docSpec) { d.Stmts[si].VTS = v.V })
@@ -884,9 +883,19 @@ func safeApply(e *edit, d *docSpec) (ok bool) {
 	return true
 }
 
+// submit hands the samples collected at fixed indices to the run in index order (deterministic).
+func submit(r *hx.Run, samples []any) {
+	for _, s := range samples {
+		if s != nil {
+			r.Sample(s)
+		}
+	}
+}
+
 func enumEdits(r *hx.Run, kind string) {
 	bases := baseDocs(kind)
 	edits := make([][]edit, len(bases))
+	baseSamples := make([]any, len(bases))
 	nEdits, nViol := 0, 0
 	opNames := map[string]bool{}
 	// base documents and single edits
@@ -918,9 +927,10 @@ func enumEdits(r *hx.Run, kind string) {
 			judgeSpec(r, d, whatOf(e.Op), b.ID+" + "+e.Op)
 		}
 		if i%41 == 0 {
-			r.Sample(map[string]any{"kind": kind, "base": b.ID, "document": json.RawMessage(b.Spec.json()), "single_edits": len(edits[i])})
+			baseSamples[i] = map[string]any{"kind": kind, "base": b.ID, "document": json.RawMessage(b.Spec.json()), "single_edits": len(edits[i])}
 		}
 	}, nil)
+	submit(r, baseSamples)
 	for i := range edits {
 		nEdits += len(edits[i])
 		for _, e := range edits[i] {
@@ -939,9 +949,7 @@ func enumEdits(r *hx.Run, kind string) {
 	type unit struct{ b, e int }
 	var units []unit
 	for i := range bases {
-		if !r.Thorough() && i%4 != 0 {
-			continue // quick: pairs on every 4th base document, primary parameters only
-		}
+		// quick: primary parameters only
 		for k := range edits[i] {
 			if !r.Thorough() && !edits[i][k].Primary {
 				continue
@@ -949,6 +957,7 @@ func enumEdits(r *hx.Run, kind string) {
 			units = append(units, unit{i, k})
 		}
 	}
+	unitSamples := make([]any, len(units))
 	var pairs, cancelled, skipped int64
 	var mu sync.Mutex
 	r.Parallel(len(units), func(u int) {
@@ -977,13 +986,14 @@ func enumEdits(r *hx.Run, kind string) {
 			}
 			if np == 1 && u%997 == 0 {
 				rs, _ := reference(d)
-				r.Sample(map[string]any{"kind": kind, "base": b.ID, "edits": []string{e1.Op, e2.Op}, "document": json.RawMessage(d.json()), "reference": rs})
+				unitSamples[u] = map[string]any{"kind": kind, "base": b.ID, "edits": []string{e1.Op, e2.Op}, "document": json.RawMessage(d.json()), "reference": rs}
 			}
 		}
 		mu.Lock()
 		pairs, cancelled, skipped = pairs+np, cancelled+nc, skipped+ns
 		mu.Unlock()
 	}, nil)
+	submit(r, unitSamples)
 	r.Extra[kind+"_edit_pairs"] = pairs
 	r.Extra[kind+"_edit_pairs_same_field_not_combined"] = skipped
 	r.Extra[kind+"_edit_pairs_violating_but_valid_together"] = cancelled
@@ -1069,6 +1079,7 @@ func (a asmAlphabet) statements(kind string) []stmtSpec {
 func enumAssembly(r *hx.Run, kind string) {
 	single := asmSingle(r.Thorough()).statements(kind)
 	r.Extra[kind+"_assembled_single_statement_documents"] = len(single)
+	asmSamples := make([]any, len(single))
 	r.Parallel(len(single), func(i int) {
 		d := &docSpec{Kind: kind, Version: "1.0", Stmts: []stmtSpec{single[i]}}
 		d = d.clone()
@@ -1076,9 +1087,10 @@ func enumAssembly(r *hx.Run, kind string) {
 		judgeSpec(r, d, "assembled", fmt.Sprintf("%s-assembled-1[%d]", kind, i))
 		if i%7919 == 0 {
 			rs, _ := reference(d)
-			r.Sample(map[string]any{"kind": kind, "assembled": i, "document": json.RawMessage(d.json()), "reference": rs})
+			asmSamples[i] = map[string]any{"kind": kind, "assembled": i, "document": json.RawMessage(d.json()), "reference": rs}
 		}
 	}, nil)
+	submit(r, asmSamples)
 	pool := asmPool(r.Thorough()).statements(kind)
 	type naming struct{ ver, n0, n1 string }
 	namings := []naming{{"1.0", "a", "b"}, {"1.0", "a", "a"}}
@@ -1193,7 +1205,7 @@ func replay(r *hx.Run) {
 
 func main() {
 	r := hx.New("C09")
-	r.Rule = "every base document of the valid grammar, every applicable (site, operator, parameter) single edit, every pair of edits writing different fields (quick: primary parameters on every 4th base document), and every document assembled from the component alphabets (<= 2 statements) is validated once directly and once through NewVerifierWithOptions and compared with the label-based reference; non-trivial = distinct documents (kind + JSON)"
+	r.Rule = "every base document of the valid grammar, every applicable (site, operator, parameter) single edit, every pair of edits writing different fields (quick: only the primary parameter of every operator and site), and every document assembled from the component alphabets (<= 2 statements) is validated once directly and once through NewVerifierWithOptions and compared with the label-based reference; non-trivial = distinct documents (kind + JSON)"
 	r.Assumptions = []string{
 		"documents are built as Go values (JSON loading is C12's domain); nil and empty lists are both used",
 		"every store, identity, scope, level, option, type and action string carries a hand-written label (tables.go); the reference never inspects the strings",
